@@ -103,14 +103,85 @@ def write_replay(pid, unit, obl, extra=None):
     return path
 
 
+import threading
+PENDING = threading.local()      # loop heads seen by iteration contracts while a unit runs (see astvc.unit.run_loop_isolated)
+
+# loop heads of the unchanged tree that are deliberately not full traversals (unit id substring, function, loop ordinal): reason
+HEAD_EXEMPT = {
+    ("C11.transport.advective_shift", "Phreeqc::transport", 22): "shift loop runs in the direction of flow (i -= ishift from last_c to first_c); its range is under the unit's own shift contract",
+    ("C20.add_potential_factor", "Phreeqc::add_potential_factor", 0): "token 0 of trxn is the species being defined; the reactants start at token 1",
+}
+
+
+def _classify_head(h):
+    """'full' when the loop head is one of the canonical full-traversal shapes, else a description of the deviation"""
+    init, cond, inc, kind = h["init"], h["cond"], h["inc"], h["kind"]
+    import re
+    if kind != "ForStmt" or not (init or cond or inc):
+        return "full"                                  # while/do loops and heads whose text is not available (templates in headers)
+    v = None
+    m = re.match(r"^(?:[\w:<>\*& ,]+?[\s\*&])?(\w+)=(.+?);?$", init) if init else None
+    if m:
+        v, start = m.group(1), m.group(2)
+    if not inc or not re.match(r"^(\+\+\w+|\w+\+\+|--\w+|\w+--|\w+\+=1|\w+=\w+->next)$", inc):
+        return "increment `%s` is not a unit step" % inc
+    if cond is None or cond == "":
+        return "no loop condition"
+    if re.search(r"!=.*\.end\(\)$", cond) or re.search(r"!=\w+end\b", cond):
+        if init and ("begin()" not in init and "=" in init) and not re.search(r"=\w+$|=\*?\w+(\.|->)\w+", init):
+            return "iterator loop does not start at begin(): `%s`" % init
+        return "full"
+    if re.search(r"(!=NULL|!=0|!=nullptr)$", cond) or re.match(r"^\w+(->\w+)*$", cond):
+        return "full"                                  # sentinel-terminated walk
+    m2 = re.match(r"^\(?\w*\)?(\w+)(<=|<|>=|>|!=)(.+)$", cond)
+    if not m2:
+        if re.match(r"^[\w\.\->\(\)\*]+==[^=]", cond):
+            return "loop runs while `%s` (an equality): not a traversal" % cond
+        return "full"                                  # compound conditions are left to the unit
+    op = m2.group(2)
+    if v is None or init is None or init == "":
+        return "full"
+    if inc.startswith("--") or inc.endswith("--"):
+        return "full" if op in (">=", ">") else "downward loop with condition `%s`" % cond
+    bound = m2.group(3)
+    if op == "<" and start in ("0", "(size_t)0", "0u"):
+        return "full"
+    if op == "<=" and start == "1":
+        return "full"
+    if op == "<=" and bound.endswith(".size()"):
+        return "index runs to size() inclusive: `%s`" % cond
+    if op in ("<", "<=", "!="):
+        return "full" if start not in ("0", "1") else ("index starts at %s with condition `%s`" % (start, cond))
+    return "condition `%s` does not bound an upward index" % cond
+
+
+def attach_loop_heads(r, heads):
+    seen = set()
+    for h in heads:
+        key = (h["function"], h["ordinal"])
+        if key in seen:
+            continue
+        seen.add(key)
+        verdict = _classify_head(h)
+        ex = [why for (u, f, o), why in HEAD_EXEMPT.items() if u in r.id and f == h["function"] and o == h["ordinal"]]
+        name = "loop%d_of_%s.head_is_a_full_traversal" % (h["ordinal"], h["function"].split("::")[-1])
+        if verdict == "full" or ex:
+            r.add(name, DISCHARGED, "syntactic", 0.0, "for (%s %s; %s)%s" % (h["init"], h["cond"], h["inc"], " [exempt: %s]" % ex[0] if ex else ""), kind="establishment")
+        else:
+            r.add(name, FAILED, "syntactic", 0.0, "for (%s %s; %s): %s" % (h["init"], h["cond"], h["inc"], verdict), kind="establishment")
+
+
 def run_units(unit_fns, jobs=8):
     """unit_fns: list of (uid, callable) -> list of UnitResult (order kept)."""
     def one(item):
         uid, fn = item
         t0 = time.time()
         try:
+            PENDING.heads = []
             r = fn()
             rs = r if isinstance(r, list) else [r]
+            if len(rs) == 1 and getattr(PENDING, "heads", None) and not rs[0].undecided_reason:
+                attach_loop_heads(rs[0], PENDING.heads)
         except Undecided as e:
             u = UnitResult(uid)
             u.undecided_reason = str(e)
